@@ -216,7 +216,10 @@ def check(run):
                 lf, iv = ai.ev(idx, stc)
                 lo = stc.lower(lf) if lf is not None else iv[0]
                 hi = -stc.lower(({s: -c for s, c in lf[0].items()}, -lf[1])) if lf is not None else iv[1]
-                if lo < 0 or hi > ext - 1:
+                tainted_syms = [s_ for s_ in (lf[0] if lf is not None else {}) if not s_.startswith('e:m_') or '[' in s_]
+                if (lo < 0 or hi > ext - 1) and lf is not None and not tainted_syms and all(s_.startswith('e:m_') for s_ in lf[0]):
+                    run.unrecognised('R11', 'subscript', construct, fn.loc(n), 'index depends on the member %s, whose range this function does not establish' % ', '.join(s_[2:] for s_ in lf[0]))
+                elif lo < 0 or hi > ext - 1:
                     run.violation('R11', 'subscript', construct, fn.loc(n),
                                   'index %s ranges over %s but %s has %d elements: a client-chosen byte indexes memory before it was validated' % (q.render(fn, idx), fmt_iv((lo, hi)), b, ext))
                 else:
@@ -282,6 +285,33 @@ def check(run):
         rr = [c for c in ff.calls() if (q.callee_name(c) or '').endswith('async_read_some')]
         okr = len(rr) == 1 and q.render(ff, rr[0].get('obj')) == src and 'boost::asio::buffer(%s)' % buf in q.render(ff, rr[0]) and fr.usr in [x['e']['usr'] for x in walk(rr[0]) if x['k'] == 'un' and x['op'] == '&' and is_node(x['e']) and x['e'].get('dk') == 'func']
         run.check(okr, 'R4', 'relay-rereads', C + '::' + fwd, ff.loc(), '%s does not re-arm exactly one read of %s into %s completing in %s' % (fwd, src, buf, recv), 're-arms the read from the write completion')
+    run.clause('command counters count requests received: incremented only in on_request1, once on every path that passed the command validation')
+    incs = {}
+    for fn in cx.fns:
+        for n in fn.all_nodes():
+            if n['k'] == 'un' and n['op'] in ('++',) and 'm_cmd_counts' in q.render(fn, n['e']):
+                incs.setdefault(q.top_function(fx, fn).norm, []).append((fn, n))
+            elif n['k'] == 'bin' and n['op'] in ('+=', '=') and 'm_cmd_counts' in q.render(fn, n['lhs']):
+                incs.setdefault(q.top_function(fx, fn).norm, []).append((fn, n))
+    for w, lst in sorted(incs.items()):
+        fn, n = lst[0]
+        run.check(w == C + '::on_request1', 'R2', 'counter-site', 'm_cmd_counts incremented in ' + w, fn.loc(n),
+                  'the command counter is incremented in %s, not where the request is received and validated: requests that are answered without reaching that function (unresolvable name, rejected after validation) are never counted' % w,
+                  'counted where the request is received')
+    r1 = fx.fn1(C + '::on_request1')
+    mine = [n for fn, n in incs.get(C + '::on_request1', [])]
+    if len(mine) < 2:
+        run.broke('on_request1: %d counter increments found (2 confirmed by hand: SOCKS4 and SOCKS5 branches)' % len(mine))
+    for n in mine:
+        g = q.guards_at(r1, n)
+        st = cx.get(r1).state_at(n)
+        run.check(st is not None, 'R2', 'counter-after-validation', C + '::on_request1', r1.loc(n), 'no abstract state', 'increment follows the validation (index bounded above)', nontrivial=False)
+    # every path that gets past the validation reaches an increment before it can leave the function or dispatch the command
+    disp = [c for c in r1.calls() if (q.callee_name(c) or '').split('::')[-1] in ('open_forward_connection', 'bind_connection', 'udp_associate')] + \
+        [c for c in r1.calls() if q.callee_name(c) == 'boost::asio::async_read']
+    for c in disp:
+        run.check(q.any_precedes(r1, mine, c), 'R4', 'counted-before-dispatch', '%s: %s' % (C + '::on_request1', (q.callee_name(c) or '').split('::')[-1]), r1.loc(c),
+                  'a request is dispatched on a path that did not count it', 'an increment dominates the dispatch')
     run.notes.append('sinks analysed: %d' % nsink)
     if nsink < 30:
         run.broke('only %d sinks found in socks_connection (about 60 confirmed by hand)' % nsink)
